@@ -31,12 +31,16 @@ def coq_entry(I, e):
         return "(EObs %d %s %d %d %s)" % (e[1], e[2], I(e[3]), e[4], coq_bool(e[5]))
     if e[0] == "query":
         return "(EQuery %d %d)" % (I(e[1]), e[2])
+    if e[0] == "fire_in":
+        return "(EFireIn %d)" % e[1]
+    if e[0] == "fire_out":
+        return "(EFireOut %d %s)" % (e[1], coq_bool(e[2]))
     raise ValueError(e)
 
 
 def coq_callrec(I, r):
     return ("{| cr_ret := %s; cr_log := %s; cr_running := %s; cr_awaited := %s; cr_final := %s |}"
-            % (coq_bool(r["ret"]), coq_list([coq_entry(I, e) for e in r["log"] if e[0] in ("notif", "query", "obs")]),
+            % (coq_bool(r["ret"]), coq_list([coq_entry(I, e) for e in r["log"] if e[0] in ("notif", "query", "obs", "fire_in", "fire_out")]),
                coq_bool(r["running"]), coq_list([str(i) for i in r["awaited"]]), coq_bool(r["final"])))
 
 
@@ -54,15 +58,23 @@ def coq_apicall(op):
     return "AJunk"
 
 
+MUTATE_MODES = {False: 0, None: 0, "append": 1, True: 1, "clear": 2, "replace": 3}
+
+
 def coq_runcase(I, case, script):
     vals = [v["*"] for v in case["vals"]]
-    return ("{| rc_prog := %s; rc_vals := %s; rc_imm := %s; rc_script := %s |}"
+    opts = case.get("options", {})
+    react = case.get("react") or []
+    return ("{| rc_prog := %s; rc_vals := %s; rc_imm := %s; rc_script := %s; rc_react := %s; "
+            "rc_mutate := %d; rc_test_ids := %s |}"
             % (coq_program(I, case["prog"]), coq_list([coq_value(I, v) for v in vals]),
                coq_list([coq_bool(b) for b in case["imm"]]),
-               coq_list([coq_apicall(o) for o in script])))
+               coq_list([coq_apicall(o) for o in script]),
+               coq_list(["None" if r is None else "(Some %d)" % r for r in react]),
+               MUTATE_MODES[opts.get("mutate", False)], coq_bool(opts.get("test_ids", True))))
 
 
-HEADER_MON = "From PFDL Require Import Monitors.\nSet Printing Depth 100000.\nSet Printing Width 200.\n"
+HEADER_MON = "From PFDL Require Import Monitors NetRun.\nSet Printing Depth 100000.\nSet Printing Width 200.\n"
 HEADER = "From PFDL Require Import RunCase.\nSet Printing Depth 100000.\nSet Printing Width 200.\n"
 
 
